@@ -29,6 +29,15 @@ pub mod trusted_axioms {
     pub broadcast proof fn axiom_maps_ref_key_to_value<Q, V>(m: Map<&Q, V>, k: &Q, v: V)
         ensures #[trigger] vstd::std_specs::hash::maps_borrowed_key_to_value::<&Q, V, Q>(m, k, v) == (m.contains_key(k) && m[k] == v)
     {}
+    // HashMap<String, V>::get(&str): `String: Borrow<str>` borrows the text
+    #[verifier::external_body]
+    pub broadcast proof fn axiom_contains_str_key<V>(m: Map<String, V>, k: &str)
+        ensures #[trigger] vstd::std_specs::hash::contains_borrowed_key::<String, V, str>(m, k) == (exists|s: String| s@ == k@ && m.contains_key(s))
+    {}
+    #[verifier::external_body]
+    pub broadcast proof fn axiom_maps_str_key_to_value<V>(m: Map<String, V>, k: &str, v: V)
+        ensures #[trigger] vstd::std_specs::hash::maps_borrowed_key_to_value::<String, V, str>(m, k, v) == (exists|s: String| s@ == k@ && m.contains_key(s) && m[s] == v)
+    {}
     // std's by-value HashMap iterator obeys the (prophetic) iterator laws
     #[verifier::external_body]
     pub broadcast proof fn axiom_hm_into_iter_laws<K, V, A: std::alloc::Allocator>(it: std::collections::hash_map::IntoIter<K, V, A>)
@@ -46,7 +55,7 @@ pub mod proved_lemmas {
         assert(s.unref().contains(*s[i]));
     }
 }
-broadcast use {proved_lemmas::lemma_unref_to_set_contains, trusted_axioms::axiom_contains_ref_key, trusted_axioms::axiom_maps_ref_key_to_value, trusted_axioms::axiom_hashmap_from_iter, trusted_axioms::axiom_fmt_never_panics, trusted_axioms::axiom_hm_into_iter_laws,
+broadcast use {proved_lemmas::lemma_unref_to_set_contains, trusted_axioms::axiom_contains_str_key, trusted_axioms::axiom_maps_str_key_to_value, trusted_axioms::axiom_contains_ref_key, trusted_axioms::axiom_maps_ref_key_to_value, trusted_axioms::axiom_hashmap_from_iter, trusted_axioms::axiom_fmt_never_panics, trusted_axioms::axiom_hm_into_iter_laws,
                vstd::std_specs::fmt::group_fmt_axioms, vstd::std_specs::hash::group_hash_axioms};
 
 #[verifier::reject_recursive_types(A)]
